@@ -8,6 +8,41 @@ from .common import tier_from, seed_from
 from .tlc import MachineryError
 
 
+BUDGET_S = {"quick": 3600, "thorough": 6 * 3600}      # last resort against a hang: every check finishes far below this
+
+
+def _descendants(pid):
+    import os
+    kids = {}
+    for d in os.listdir("/proc"):
+        if d.isdigit():
+            try:
+                with open(f"/proc/{d}/stat") as f:
+                    parts = f.read().rsplit(")", 1)[1].split()
+                kids.setdefault(int(parts[1]), []).append(int(d))
+            except OSError:
+                pass
+    out, todo = [], [pid]
+    while todo:
+        for k in kids.get(todo.pop(), []):
+            out.append(k)
+            todo.append(k)
+    return out
+
+
+def _on_budget(signum, frame):
+    import os
+    import signal
+    print("MACHINERY-ERROR: the check exceeded its wall-clock budget and was stopped (a hang in the harness or in the code under test)")
+    sys.stdout.flush()
+    for k in _descendants(os.getpid()):
+        try:
+            os.kill(k, signal.SIGKILL)
+        except OSError:
+            pass
+    os._exit(2)
+
+
 def main():
     ap = argparse.ArgumentParser()
     ap.add_argument("property")
@@ -22,6 +57,13 @@ def main():
     except ModuleNotFoundError as e:
         print(f"no check for {pid}: {e}")
         return 2
+    import signal
+    signal.signal(signal.SIGUSR1, _on_budget)
+    import threading
+    import os
+    timer = threading.Timer(float(os.environ.get("VERIF_BUDGET_S", BUDGET_S[tier])), lambda: os.kill(os.getpid(), signal.SIGUSR1))
+    timer.daemon = True
+    timer.start()
     try:
         if a.replay:
             return mod.replay(a.replay)
